@@ -156,7 +156,11 @@ class Path:
             self.assume(ax)
         e = ref.e if isinstance(ref, sv.SV) else ref
         v = fm.get(e)
-        for c in sv.wf(v):
+        try:
+            facts = sv.wf(v)
+        except z3.Z3Exception:
+            facts = []  # read at a bound variable inside a contract quantifier: no typing facts to assume
+        for c in facts:
             self.assume(c)
         return v
 
